@@ -99,11 +99,17 @@ def rand_shell(rng, l, K=None, M=None, t=None, center=None, emin=0.02, emax=None
     pre = bool(rng.random() < 0.12)
     if pre:
         coeffs = prenormalise(l, exps, coeffs, int(rng.integers(6, 9)))
+    scl = bool(not pre and rng.random() < 0.08)
+    if scl:
+        # the whole coefficient matrix of the shell in other units (contractions are renormalised, so only the relative
+        # sizes matter): overall factors of 1e-7 .. 1e-4 and 1e4 .. 1e7
+        f_ = 10.0 ** float(rng.uniform(4.0, 7.0) * rng.choice([-1.0, 1.0]))
+        coeffs = [[v * f_ for v in row] for row in coeffs]
     if center is None:
         center = rng.normal(size=3) * 1.5
     t = t or str(rng.choice(["c", "p"]))
     return {"l": int(l), "c": [float(x) for x in center], "e": exps, "k": coeffs, "t": t,
-            "_cls": ["exp:" + ecls] + (["coef:parallel"] if par else []) + (["coef:zeros"] if zer else []) + (["coef:small"] if sml else []) + (["coef:prenormalised"] if pre else [])}
+            "_cls": ["exp:" + ecls] + (["coef:parallel"] if par else []) + (["coef:zeros"] if zer else []) + (["coef:small"] if sml else []) + (["coef:prenormalised"] if pre else []) + (["coef:overall-scale"] if scl else [])}
 
 
 GEOM_CLASSES = ["coincident", "collinear", "coplanar", "general", "axis-zero", "axis-almost", "far", "near", "diagonal", "lattice"]
@@ -328,6 +334,12 @@ def add_argrep(rng, shells, classes):
     ``make_contractions``). An integer centre is used only where the coordinates are integer-valued already."""
     shells = [dict(s) for s in shells]
     used = set()
+    if len(shells) >= 3 and rng.random() < 0.35 and not any(s_.get("dup_key") is not None for s_ in shells):
+        # two shells on one atom, the others elsewhere ([A, A, B]): with shared centre arrays the atoms are then referenced by
+        # different numbers of shells
+        shells[1]["c"] = list(shells[0]["c"])
+        shells[0]["share"] = shells[1]["share"] = "g"
+        used.add("two-shells-one-atom")
     for s in shells:
         rep = {}
         for which in ("k", "e", "c"):
@@ -344,7 +356,7 @@ def add_argrep(rng, shells, classes):
         if rng.random() < 0.6:
             s["ic"] = int(rng.integers(0, 2))  # atom labels, deliberately repeated on different centres
             used.add("icenter")
-        if rng.random() < 0.5:
+        if rng.random() < 0.5 or s.get("share"):
             s["share"] = "g"
         if rng.random() < 0.5:
             s["share_e"] = "g"
@@ -526,3 +538,22 @@ def tight_far_pair(rng, la, lb):
         s.pop("_cls")
         shells.append(s)
     return shells, ["geom:tight-far"]
+
+
+def tight_near_pair(rng, la, lb):
+    """Two tight shells (exponents in the top decade and a half of the published range) whose centres are about one width
+    1/sqrt(alpha) apart (0.003 .. 0.1 bohr), coordinates with all their digits: there the integrals between them change by
+    1e-8 for a displacement of 1e-10..1e-9 bohr, so centres that are rounded, snapped to a grid or stored in lower
+    precision show."""
+    shells = []
+    c0 = rng.normal(size=3) * 1.5
+    amax = 0.0
+    for l in (la, lb):
+        s = rand_shell(rng, l, center=c0, emin=cap(l) / 30.0, emax=cap(l), ecls=str(rng.choice(["edge-hi", "log"])), Kmax=2, Mmax=2)
+        s.pop("_cls")
+        amax = max(amax, max(s["e"]))
+        shells.append(s)
+    u = rng.normal(size=3)
+    u /= np.linalg.norm(u)
+    shells[1]["c"] = [float(v) for v in c0 + u * float(rng.uniform(0.6, 1.6)) / np.sqrt(amax)]
+    return shells, ["geom:tight-near"]
